@@ -241,8 +241,14 @@ class Gen(object):
             a = ",\n    ".join("%s = %s" % kv for kv in args)
             target = REF[name]
             v3.append("%s = %s(\n    %s\n)" % (res, target, a))
+            half = list(args)
+            if style != "v2in" and self.rnd.random() < 0.3:
+                # a half-migrated command: it already has its result name but still carries the EEMS 2.0 output arguments
+                for kv in [("OutFileName", "ignored_%s.csv" % res)] + ([("NewFieldName", res)] if self.rnd.random() < 0.5 else []):
+                    half.insert(self.rnd.randint(0, len(half)), kv)
+            ah = ",\n    ".join("%s = %s" % kv for kv in half)
             if allnamed and style != "v2in":
-                v2.append("%s = %s(\n    %s\n)" % (res, name if idx % 2 == 0 else target, a))
+                v2.append("%s = %s(\n    %s\n)" % (res, name if idx % 2 == 0 else target, ah))
             elif style == "v2in":
                 v2.append("%s(\n    %s\n)" % (name, a))
             elif style in ("v2new", "v2out"):
@@ -252,7 +258,7 @@ class Gen(object):
                     al.insert(self.rnd.randint(0, len(al)) if self.rnd.random() < 0.5 else len(al), kv)
                 v2.append("%s(\n    %s\n)" % (name, ",\n    ".join("%s = %s" % kv for kv in al)))
             else:  # MPilot-style command inside the v2 file, still using the v2 command name half of the time
-                v2.append("%s = %s(\n    %s\n)" % (res, name if self.rnd.random() < 0.5 else target, a))
+                v2.append("%s = %s(\n    %s\n)" % (res, name if self.rnd.random() < 0.5 else target, ah))
         return "\n".join(v2), "\n".join(v3)
 
 
